@@ -50,6 +50,12 @@ def build(inp):
         4: O.AbsolutePositionObserver(grid=grid, agents=agents),
         5: O.AmmoObserver(grid=grid, agents=agents),
     }
+    if (rows + cols + len(wags) + seed) % 2:
+        # the option reaches its value through the public setter after construction
+        obs[1] = O.PositionCenteredEncodingObserver(grid=grid, agents=agents, observe_self=False)
+        obs[1].observe_self = True
+        obs[2] = O.PositionCenteredEncodingObserver(grid=grid, agents=agents, observe_self=True)
+        obs[2].observe_self = False
     G.place_initial(grid, agents, wags)
     for k in kills:
         a = agents[G.aid(k)]
